@@ -421,6 +421,10 @@ ARGS_LOOP:
 						if _, is := isOption(value, mode, false); is {
 							break
 						}
+						// The terminator is never an optional argument
+						if value == "--" {
+							break
+						}
 
 						// Validate that value matches expected format
 						switch cOpt.OptType {
